@@ -67,15 +67,20 @@ pub struct Case<'a> {
 
 thread_local! {
     /// Set by the history pass: the case evaluated on this thread immediately before the current one.
-    static HIST_AFTER: std::cell::Cell<Option<u64>> = std::cell::Cell::new(None);
+    static HIST_AFTER: std::cell::RefCell<Vec<u64>> = std::cell::RefCell::new(Vec::new());
+    /// The last eight cases this thread evaluated in the history pass, oldest first.
+    static HIST_RECENT: std::cell::RefCell<Vec<u64>> = std::cell::RefCell::new(Vec::new());
 }
 
 impl<'a> Case<'a> {
     pub fn json(&self, input: Value) -> Value {
-        match HIST_AFTER.with(|h| h.get()) {
-            // a violation seen in the history pass is replayed with its predecessor evaluated first
-            Some(p) => json!({"space": self.space, "idx": self.idx, "tier": self.tier.name(), "input": input, "after": [p]}),
-            None => json!({"space": self.space, "idx": self.idx, "tier": self.tier.name(), "input": input}),
+        let after = HIST_AFTER.with(|h| h.borrow().clone());
+        if after.is_empty() {
+            json!({"space": self.space, "idx": self.idx, "tier": self.tier.name(), "input": input})
+        } else {
+            // a violation seen in the history pass is replayed with its predecessors (the last few cases evaluated on
+            // the same thread, oldest first) evaluated first
+            json!({"space": self.space, "idx": self.idx, "tier": self.tier.name(), "input": input, "after": after})
         }
     }
 }
@@ -168,10 +173,28 @@ pub fn history_pass(ctx: &Ctx, sp: &Space, forward_s: f64) -> (Acc, HistStats) {
         }
         let b = t * step;
         let base = Case { space: &sp.name, idx: b, tier: ctx.tier };
-        let mut scratch = Acc::new();
-        HIST_AFTER.with(|h| h.set(None));
+        // every evaluation of the sequence b, p1, b, p2, b, ... is judged; "after" names the (up to eight) cases evaluated
+        // just before it on this thread. The first evaluation of b also tells the coordinates.
+        // (the worker threads of this pass are new threads, so HIST_RECENT starts empty and spans the bases a thread handles)
+        let mut recent: Vec<u64> = vec![];
+        let mut eval_judged = |c: &Case, _unused: &mut Vec<u64>, acc: &mut Acc| {
+            HIST_AFTER.with(|h| *h.borrow_mut() = HIST_RECENT.with(|r| r.borrow().clone()));
+            let mut one = Acc::new();
+            (sp.eval)(c, &mut one);
+            HIST_AFTER.with(|h| h.borrow_mut().clear());
+            let mut vo = Acc::new();
+            vo.violations = std::mem::take(&mut one.violations);
+            acc.merge(vo);
+            HIST_RECENT.with(|r| {
+                let mut r = r.borrow_mut();
+                r.push(c.idx);
+                if r.len() > 8 {
+                    r.remove(0);
+                }
+            });
+        };
         let _ = crate::engine::take_first_coords();
-        (sp.eval)(&base, &mut scratch);
+        eval_judged(&base, &mut recent, acc);
         let (local, dims) = match crate::engine::take_first_coords() {
             Some((li, d)) if li <= b && d.iter().all(|x| *x > 0) && d.iter().product::<u64>() <= n && b - li + d.iter().product::<u64>() <= n && li < d.iter().product::<u64>() => (li, d),
             _ => (b, vec![n]),
@@ -183,7 +206,7 @@ pub fn history_pass(ctx: &Ctx, sp: &Space, forward_s: f64) -> (Acc, HistStats) {
         for j in (0..dims.len().saturating_sub(1)).rev() {
             weight[j] = weight[j + 1] * dims[j + 1];
         }
-        for j in 0..dims.len() {
+        'outer: for j in 0..dims.len() {
             for v in neighbour_values(cs[j], dims[j]) {
                 let p = offset + local - cs[j] * weight[j] + v * weight[j];
                 if p >= n || p == b {
@@ -191,18 +214,11 @@ pub fn history_pass(ctx: &Ctx, sp: &Space, forward_s: f64) -> (Acc, HistStats) {
                 }
                 if t0.elapsed() > cap {
                     capped.store(true, std::sync::atomic::Ordering::Relaxed);
-                    break;
+                    break 'outer;
                 }
                 let pred = Case { space: &sp.name, idx: p, tier: ctx.tier };
-                HIST_AFTER.with(|h| h.set(None));
-                (sp.eval)(&pred, &mut scratch);
-                HIST_AFTER.with(|h| h.set(Some(p)));
-                let mut one = Acc::new();
-                (sp.eval)(&base, &mut one);
-                HIST_AFTER.with(|h| h.set(None));
-                let mut vo = Acc::new();
-                vo.violations = std::mem::take(&mut one.violations);
-                acc.merge(vo);
+                eval_judged(&pred, &mut recent, acc);
+                eval_judged(&base, &mut recent, acc);
                 pairs.fetch_add(1, std::sync::atomic::Ordering::Relaxed);
             }
         }
